@@ -341,7 +341,7 @@ impl PollSys {
         let mut v = Vec::new();
         set_now_millis(s.now);
         let mut sc = s.sc;
-        let out = sc.poll(ch(self.ch)).map(|m| tup_pnm(&m));
+        let out = sc.poll_ch(self.ch);
         let ob = &s.ob;
         let mut nob = *ob;
         let age_owed = ob.owed.map(|(_, since)| s.now - since);
@@ -381,7 +381,7 @@ impl PollSys {
         if self.report.dup {
             set_now_millis(s.now);
             let mut copy = s.sc;
-            let out2 = copy.poll(ch(self.ch)).map(|m| tup_pnm(&m));
+            let out2 = copy.poll_ch(self.ch);
             if out2 != out || copy != sc {
                 v.push(self.vx("copy-evolves-identically", "poll", "polling two copies of the same scanner gave different results".to_string()));
             }
@@ -412,6 +412,9 @@ impl System for PollSys {
     type Action = PoAct;
     type Key = (u128, Obs);
 
+    fn pid(&self) -> String {
+        self.pid.to_string()
+    }
     fn name(&self) -> String {
         format!("PollingParameterNumberMessageScanner x history-observer [ch={}, timeout={}, age cap={}, |alphabet|={}, probes={}, transparent={}]", self.ch, self.tname(), self.cap, self.alphabet.len(), self.probes.len(), self.noncontrib.len())
     }
